@@ -8,11 +8,17 @@
 import argparse
 import json
 import os
+import warnings
 import sys
 
 HERE = os.path.dirname(os.path.abspath(__file__))
 if HERE not in sys.path:
     sys.path.insert(0, HERE)
+
+
+# (a task that the last event of a run created is cancelled at teardown
+# before its first step)
+warnings.filterwarnings('ignore', message='coroutine .* was never awaited')
 
 
 def main():
